@@ -710,6 +710,32 @@ def setitem(ex, obj, key, v):
                 raise SymRaise("IndexError", "index out of range")
             obj.items[c] = v
             return
+        if isinstance(key, NDArray) and key.dtype == "bool" and key.ndim == 1:
+            n_ = as_const(key.shape[0]) if is_z3(key.shape[0]) else key.shape[0]
+            if isinstance(n_, int):
+                key = Vec([key.elem((i,)) for i in range(n_)], "array")
+        # boolean mask of the same length: elementwise choice
+        if isinstance(key, Vec) and len(key.items) == len(obj.items) and key.items and \
+                all(isinstance(k, bool) or is_sym_bool(k) for k in key.items):
+            from .libnp import MaskedSel
+            if isinstance(v, MaskedSel):
+                from .ops import as_ndarray as _asnd
+                src = _asnd(v.src)
+                vals = [src.elem((i,)) for i in range(len(obj.items))]
+            elif isinstance(v, Vec) and v.kind == "array" and all(isinstance(k, bool) for k in key.items) and \
+                    len(v.items) == sum(1 for k in key.items if k):
+                # packed values for a CONCRETE mask: the t-th value goes to the t-th selected position
+                it = iter(v.items)
+                vals = [next(it) if k else None for k in key.items]
+            elif isinstance(v, (Vec, list, tuple)):
+                raise Unsupported("masked assignment of a packed value vector")
+            else:
+                vals = [v] * len(obj.items)
+            if obj.items and all(isinstance(o, bool) or is_sym_bool(o) for o in obj.items):
+                # a boolean array keeps its dtype: numbers assigned into it are truth values
+                vals = [(x if isinstance(x, bool) or is_sym_bool(x) or x is None else (x != 0 if not is_z3(x) else to_z3(x) != 0)) for x in vals]
+            obj.items = [zite(k, nv, old) if is_z3(k) else (nv if k else old) for k, nv, old in zip(key.items, vals, obj.items)]
+            return
         # a[ids] = value(s) with an index array: each index is decided by a case split (path fork) when symbolic
         if isinstance(key, (Vec, list, tuple)):
             ks = key.items if isinstance(key, Vec) else list(key)
